@@ -22,15 +22,17 @@ def violates(run, case, impl, model):
     return pick(im) != pick(mm) or idl != mdl or iap != map_
 
 
-LEVEL_TEXT = ("Other (proof of the handler-level parts + differential run): proved for the machine of rpc.Conn -- whenever an "
-              "answer returns through sendException exactly one Return with its own id is sent and the answer cannot return "
-              "again (one_return_partial); an answer that has not returned is always running or queued, no handler panics or "
-              "blocks, in particular a Call pipelined on an unreturned answer (step invariant, F14 refuted on the pre-fix "
-              "machine); a question id is freed only by handleReturn together with its Finish, or after the Finish sent at "
-              "cancellation (question_ids_partial). NOT proved: the history-level forms of one_return / question_ids "
-              "(induction tying returnSent and free ids to the outbox) and delivery_order; these are covered by the "
-              "differential run only (scenarios + valid stream: pipelining on returned and unreturned answers, returns "
-              "before/after later messages, embargo, cancel, id reuse; compared: Returns, ids, order seen by the instrumented "
-              "servers, results seen by local callers, table occupancy). Found and repaired: F14, F23 (answerQueue resolved a "
-              "call queued behind a queued call against the wrong answer).")
+LEVEL_TEXT = ("Other (history-level proofs of one_return and of the first half of question_ids + differential run): proved for "
+              "ALL histories of the machine of rpc.Conn -- for every answer id the Returns in the outbox never exceed the "
+              "Bootstrap/Call messages accepted with it, and while the connection is up they are equal except for the at most "
+              "one answer that still owes its Return (C06_one_return, by a balance invariant through every handler, with the "
+              "answer table / queue invariants it needs); the Return sent when a local server returns carries that outcome "
+              "(results vs exception, C06_return_is_targets); every Bootstrap/Call sent with a question id is matched by a Finish "
+              "for it except the current use, and newQuestion hands out only ids whose slot is empty, so an id is never "
+              "re-issued before its Finish is in the outbox (C06_question_ids, C06_new_question_is_free); no handler panics or "
+              "blocks, in particular a Call pipelined on an unreturned answer (F14 refuted on the pre-fix machine). NOT proved: "
+              "'each local call resolves exactly once' at history level and delivery_order (T2); both are covered by the "
+              "differential run (scenarios + valid stream: pipelining on returned and unreturned answers, returns before/after "
+              "later messages, embargo, cancel, id reuse; compared: Returns, ids, order seen by the instrumented servers, results "
+              "seen by local callers, table occupancy). Found and repaired: F14, F23.")
 LEVEL_NOTE = "See coq/Props/Properties_C06.v for the full statements and what is missing at each theorem."
